@@ -23,6 +23,13 @@ on the tree) giving that statement tree its Go meaning over the state `Sx.State`
 * lock/unlock/`defer …Unlock()` statements are skipped explicitly (the model is sequential at request granularity; the locking
   discipline is the subject of `FactsLocks`/`FactsCacheAtomic`, not of this file).
 
+`Start` (two loops, `break`, `i++`) is translated as well (`Facts.ir_Start`); loops are interpreted by the statement layer of
+`Sessions/Ir/Loop.lean` (`Ir.run`/`Ir.runs`/`Ir.execP`: fuel per loop, block scoping, merging of branches), which shares `ev` and `prim`
+with this file; `ex`/`exs` below are stuck on a loop. Additional primitives for `Start`: `fnv.New64a()`/`fmt.Fprint(hash, s)`/`hash.Sum64()` ↦
+`Sx.fnv1a` of what was written, `request.Header.Get("User-Agent")`/`request.RemoteAddr` ↦ the model request's `ua`/`ip`,
+`len(id)` ↦ `M.lenOf id`, `regexp.MustCompile(pat).FindStringSubmatch(a)` ↦ `Ir.groups a` (whole match + 4 groups of `Sx.matchIP`, or nil),
+`time.Since`, `make(map[string]interface{})`, `s.Destroy(w, r)` ↦ `Sx.destroy`.
+
 **The trusted seam** is `prim`: calls to functions OUTSIDE the function being translated are not translated but interpreted by
 the model's primitives, in call order, with their events appended in that order:
 `sessions.Set(x)` ↦ `Sx.cacheSet`, `sessions.Get` ↦ `Sx.cacheGet`, `sessions.Delete` ↦ `Sx.cacheDelete`,
@@ -83,6 +90,12 @@ inductive V where
   | idLocks                      -- the package variable `sessionIDMutexes`
   | uid (u : String)             -- what `user.GetID()` returns
   | userArg (u : String)         -- a non-nil `User` argument whose id is `u` (its version is the user table's)
+  | request (c : Option ID) (ip ua : String)   -- *http.Request as `Start` sees it: session cookie, remote address, User-Agent
+  | header (ua : String)         -- its `Header`
+  | hasher (k : Nat)             -- a hash.Hash64 from `fnv.New64a()`: index into `M.hs` (what was written to it)
+  | regex (pat : String)         -- a compiled regular expression
+  | strs (l : List String)       -- []string (nil = [])
+  | newMap                       -- `make(map[string]interface{})`
 deriving DecidableEq, Repr, Inhabited
 
 inductive Outcome where
@@ -90,6 +103,8 @@ inductive Outcome where
   | fall                         -- the end of the body was reached
   | panic                        -- a run-time panic (nil map assignment, nil dereference)
   | stuck (why : String)         -- outside the interpreted subset
+  | norm (env : List (String × V)) (hs : List String)   -- (statement level, `Ir/Loop.lean`) the statement completed normally
+  | brk (env : List (String × V)) (hs : List String)    -- (statement level) `break`
 deriving DecidableEq, Repr, Inhabited
 
 /-- final state, outcome, events in order -/
@@ -100,6 +115,8 @@ structure M where
   st : State
   env : List (String × V)
   evs : List Ev
+  hs : List String := []          -- what was written to each hasher
+  lenOf : ID → Nat := fun _ => 24 -- the byte length of a session-id string
 
 def M.stuck (m : M) (why : String) : Out := (m.st, .stuck why, m.evs)
 def M.panic (m : M) : Out := (m.st, .panic, m.evs)
@@ -152,6 +169,7 @@ def setField (ver : String → Nat) (f : String) (v : V) (o : Sess) : Option Ses
      | .id i => some { o with ref := some i }
      | .str s => if s = "" then some { o with ref := none } else none
      | _ => none)
+  else if f = "data" then (match v with | .newMap => some { o with data := some [] } | _ => none)
   else none
 
 /-- the zero `Session` of a composite literal -/
@@ -179,6 +197,10 @@ def eqV (a b : V) : Option Bool :=
   | .str x, .str y => some (x == y)
   | .id x, .id y => some (x == y)
   | .time x, .time y => some (x == y)
+  | .hash x, .hash y => some (x == y)
+  | .hash x, .int y => if 0 ≤ y then some (x == y.toNat) else none
+  -- a session id is never the empty string (the empty `referenceID` is `none`, see `getField`)
+  | .id _, .str s | .str s, .id _ => if s = "" then some false else none
   | _, _ => none
 
 def binop (op : String) (a b : V) : Option V :=
@@ -209,6 +231,8 @@ def globV (cfg : Cfg) (x : String) : Option V :=
   else if x = "SessionIDExpiry" then some (.int cfg.idExpiry)
   else if x = "SessionIDGracePeriod" then some (.int cfg.grace)
   else if x = "SessionCacheExpiry" then some (.int cfg.cacheExpiry)
+  else if x = "AcceptRemoteIP" then some (.int cfg.acceptIP)
+  else if x = "AcceptChangingUserAgent" then some (.bool cfg.acceptUA)
   else none
 
 def zeroOf (ty : String) : Option V :=
@@ -217,6 +241,7 @@ def zeroOf (ty : String) : Option V :=
   else if ty = "bool" then some (.bool false)
   else if ty = "string" then some (.str "")
   else if ty = "*Session" then some (.ptr none)
+  else if ty = "uint64" then some (.hash 0)
   else none
 
 /-- the untyped `nil` returned as a result of the given type -/
@@ -239,6 +264,8 @@ def selV (f : String) (v : V) (m : M) (k : List V → M → Out) : Out :=
   | .cookie (some c) =>
     if f = "Value" then (match c.value with | some i => k [.id i] m | none => k [.str ""] m) else m.stuck ("field " ++ f)
   | .cookie none => m.panic
+  | .request _ ip ua =>
+    if f = "Header" then k [.header ua] m else if f = "RemoteAddr" then k [.str ip] m else m.stuck ("field " ++ f)
   | _ => m.stuck ("selector " ++ f)
 
 /-- `a[i]`: the value and whether the key is present -/
@@ -247,6 +274,7 @@ def indexV (a i : V) (m : M) (k : V → Bool → M → Out) : Out :=
   | .cacheMap, .id x => k (.ptr (lookup x m.st.cache)) (lookup x m.st.cache).isSome m
   | .dataMap h, .str key =>
     k (.val ((lookup key ((m.st.obj h).data.getD [])).getD .null)) (lookup key ((m.st.obj h).data.getD [])).isSome m
+  | .strs l, .int i => if 0 ≤ i ∧ i.toNat < l.length then k (.str (l.getD i.toNat "")) true m else m.panic
   | _, _ => m.stuck "index"
 
 /-- `a[i] = v` -/
@@ -260,6 +288,15 @@ def storeIdx (a i v : V) (m : M) (k : M → Out) : Out :=
   | _, _, _ => m.stuck "map assignment"
 
 /-! ### calls: the trusted seam -/
+
+/-- the address pattern of `Start`, as the Go source spells it -/
+def ipPat : String := "^(\\d+).(\\d+).(\\d+).(\\d+):\\d+$"
+
+/-- what `FindStringSubmatch` returns for the model's matcher: the whole match and the four groups, or nil -/
+def groups (addr : String) : List String :=
+  match matchIP addr with
+  | some g => addr :: g.map String.ofList
+  | none => []
 
 inductive Callee where
   | fn (g : String)              -- `g(…)`
@@ -295,6 +332,16 @@ def prim (cfg : Cfg) (le : ID → ID → Bool) (c : Callee) (vs : List V) (m : M
       (match vs with
        | [.uid u] => let r := logoutUser cfg le m.st u; k [.err (!r.2.1)] ((m.withSt r.1).emit r.2.2)
        | _ => m.stuck "LogOut")
+    else if g = "len" then
+      (match vs with
+       | [.id i] => k [.int (m.lenOf i)] m
+       | [.str s] => k [.int (if s = "" then 0 else s.utf8ByteSize)] m
+       | [.strs l] => k [.int l.length] m
+       | _ => m.stuck "len")
+    else if g = "make" then
+      (match vs with
+       | [.newMap] => k [.newMap] m
+       | _ => m.stuck "make")
     else m.stuck ("call of " ++ g)
   | .pfn p x =>
     if p = "time" ∧ x = "Now" then
@@ -314,6 +361,18 @@ def prim (cfg : Cfg) (le : ID → ID → Bool) (c : Callee) (vs : List V) (m : M
             | none => m.stuck "http.SetCookie: no value")
          else m.stuck "http.SetCookie: not a new session cookie"
        | _ => m.stuck "http.SetCookie")
+    else if p = "fnv" ∧ x = "New64a" then
+      (match vs with
+       | [] => k [.hasher m.hs.length] { m with hs := m.hs ++ [""] }
+       | _ => m.stuck "fnv.New64a")
+    else if p = "fmt" ∧ x = "Fprint" then
+      (match vs with
+       | [.hasher j, .str t] => k [.opaque, .opaque] { m with hs := m.hs.set j (m.hs.getD j "" ++ t) }
+       | _ => m.stuck "fmt.Fprint")
+    else if p = "regexp" ∧ x = "MustCompile" then
+      (match vs with
+       | [.str pat] => k [.regex pat] m
+       | _ => m.stuck "regexp.MustCompile")
     else m.stuck ("call of " ++ p ++ "." ++ x)
   | .meth r name =>
     match r with
@@ -372,6 +431,31 @@ def prim (cfg : Cfg) (le : ID → ID → Bool) (c : Callee) (vs : List V) (m : M
          | [.cookieName] => k [.cookie (c.map (fun i => { named := true, value := some i, fromReq := true })), .err c.isNone] m
          | _ => m.stuck "Request.Cookie")
       else m.stuck ("Request." ++ name)
+    | .request c _ _ =>
+      if name = "Cookie" then
+        (match vs with
+         | [.cookieName] =>
+           k [.cookie (c.map (fun i => { named := true, value := some i, fromReq := true })), .err c.isNone] m
+         | _ => m.stuck "Request.Cookie")
+      else m.stuck ("Request." ++ name)
+    | .header ua =>
+      if name = "Get" then
+        (match vs with
+         | [.str key] => if key = "User-Agent" then k [.str ua] m else m.stuck "Header.Get: key"
+         | _ => m.stuck "Header.Get")
+      else m.stuck ("Header." ++ name)
+    | .hasher j =>
+      if name = "Sum64" then
+        (match vs with
+         | [] => k [.hash (fnv1a (m.hs.getD j "").toUTF8.toList)] m
+         | _ => m.stuck "Sum64")
+      else m.stuck ("Hash64." ++ name)
+    | .regex pat =>
+      if name = "FindStringSubmatch" then
+        (match vs with
+         | [.str a] => if pat = ipPat then k [.strs (groups a)] m else m.stuck "FindStringSubmatch: pattern"
+         | _ => m.stuck "FindStringSubmatch")
+      else m.stuck ("Regexp." ++ name)
     | .idLocks =>
       if name = "Lock" ∨ name = "Unlock" then k [] m else m.stuck ("sessionIDMutexes." ++ name)
     | .userArg u =>
@@ -386,6 +470,10 @@ def prim (cfg : Cfg) (le : ID → ID → Bool) (c : Callee) (vs : List V) (m : M
          | [] =>
            let r := hlogout cfg m.st h; k [.err (r.2.1 != HRes.ok)] ((m.withSt r.1).emit r.2.2)
          | _ => m.stuck "Session.LogOut")
+      else if name = "Destroy" then
+        (match vs with
+         | [.opaque, .request c _ _] => let x := destroy m.st h c.isSome; k [.err (!x.2.1)] ((m.withSt x.1).emit x.2.2)
+         | _ => m.stuck "Session.Destroy")
       else if name = "RegenerateID" then
         (match vs with
          | [.opaque] => let r := regenerate cfg m.st h; k [.err (!r.2.1)] ((m.withSt r.1).emit r.2.2)
@@ -442,6 +530,7 @@ def ev (cfg : Cfg) (le : ID → ID → Bool) (e : Expr) (m : M) (k : List V → 
       | some o => k [.ptr (some (m.st.alloc o).1)] (m.withSt (m.st.alloc o).2)
       | none => m.stuck "composite literal")
   | .mkErr => k [.err true] m
+  | .typ t => if t = "map[string]interface{}" then k [.newMap] m else m.stuck ("type " ++ t)
   | .unk t => m.stuck ("not translated: " ++ t)
 /-- single-valued expressions left to right -/
 def evs (cfg : Cfg) (le : ID → ID → Bool) (es : List Expr) (m : M) (k : List V → M → Out) : Out :=
@@ -536,6 +625,9 @@ def ex (cfg : Cfg) (le : ID → ID → Bool) (res : List String) (s : Stmt) (m :
            | _, _, _ => m.stuck "go: operands")))
        else m.stuck "go: body"
      | _ => m.stuck "go: body")
+  | .forCond _ _ _ _ _ => m.stuck "loop (see Ir/Loop.lean)"
+  | .brk => m.stuck "break (see Ir/Loop.lean)"
+  | .incDec _ _ => m.stuck "inc/dec (see Ir/Loop.lean)"
   | .unk t => m.stuck ("not translated: " ++ t)
 def exs (cfg : Cfg) (le : ID → ID → Bool) (res : List String) (ss : List Stmt) (m : M) (k : M → Out) : Out :=
   match ss with
@@ -546,7 +638,7 @@ end
 /-- run a translated function on the receiver (if any) followed by the arguments; `le` is the order in which
 `Persistence.UserSessions` lists ids (only `LogOut(userID)` inside `LogIn` looks at it) -/
 def execLe (cfg : Cfg) (le : ID → ID → Bool) (f : Fn) (s : State) (args : List V) : Out :=
-  match bindAll (f.recv.toList ++ f.params) args ⟨s, [], []⟩ with
+  match bindAll (f.recv.toList ++ f.params) args { st := s, env := [], evs := [] } with
   | some m => exs cfg le f.results f.body m (fun m => (m.st, .fall, m.evs))
   | none => (s, .stuck "arguments", [])
 
